@@ -33,6 +33,9 @@ import (
 
 func init() { checks["C19"] = runC19 }
 
+// observerMarker: marks, inside a digest, that an observer changed (or could not bear) the object it observed.
+const observerMarker = "OBSERVER-VIOLATION:"
+
 // pipelineWork: the whole life of one document; returns a digest of every observable result.
 func pipelineWork(src []byte, k sigKey) string {
 	var b strings.Builder
@@ -44,10 +47,21 @@ func pipelineWork(src []byte, k sigKey) string {
 	if err := p.Interpolate(mapEnv{"FOO": "foo", "BAR": "bar"}, false); err != nil {
 		return b.String() + "|interpolate-error"
 	}
-	b.WriteString("|" + vl.Enc(dump.Pipeline(p)))
-	jb, jerr := json.Marshal(p)
-	yb, yerr := yaml.Marshal(p)
+	afterInterp := vl.Enc(dump.Pipeline(p))
+	b.WriteString("|" + afterInterp)
+	var jb, yb []byte
+	var jerr, yerr error
+	if pn, msg := guard(func() {
+		jb, jerr = json.Marshal(p)
+		yb, yerr = yaml.Marshal(p)
+	}); pn {
+		fmt.Fprintf(&b, "|%s marshalling panicked: %s", observerMarker, msg)
+	}
 	fmt.Fprintf(&b, "|%s|%v|%s|%v", jb, jerr, yb, yerr)
+	// marshalling is an observer: the typed pipeline is what it was
+	if after := vl.Enc(dump.Pipeline(p)); after != afterInterp {
+		fmt.Fprintf(&b, "|%s marshalling changed the pipeline: %s", observerMarker, firstDiff(after, afterInterp))
+	}
 	penv := map[string]string{"DEPLOY": "1"}
 	serr := signature.SignSteps(context.Background(), p.Steps, k.signer, "repo", signature.WithEnv(penv), signature.WithLogger(&captureLogger{}), signature.WithDebugSigning(true))
 	fmt.Fprintf(&b, "|sign:%v", serr != nil)
@@ -137,6 +151,13 @@ func runC19(c *ctx) error {
 		wg.Wait()
 		for i, s := range srcs {
 			seq[i] = pipelineWork(s, k)
+			if at := strings.Index(seq[i], observerMarker); at >= 0 {
+				end := at + 400
+				if end > len(seq[i]) {
+					end = len(seq[i])
+				}
+				c.res.Fail(core.OracleFailure{What: "an observer (json.Marshal / yaml.Marshal of a pipeline) changed the pipeline it observed, or panicked on it", Input: map[string]any{"document": string(s)}, Got: seq[i][at:end]})
+			}
 		}
 		for i := range srcs {
 			c.res.OracleChecks++
@@ -186,7 +207,7 @@ func runC19(c *ctx) error {
 	}
 	// a second shared pipeline with the shapes observers are tempted to tidy up: a step env that shadows a pipeline
 	// variable, plugins whose configs are present but empty, an empty non-nil matrix
-	litPipe, _ := pipeline.Parse(strings.NewReader("steps:\n  - command: a\n    env: {DEPLOY: shadow, OWN: x}\n    plugins:\n      - ecr#v2.7.0: {}\n      - docker#v5.0.0: []\n      - cache#v1: ~\n  - command: b\n    matrix: {}\n  - command: d\n    matrix:\n      setup: {os: [linux, linux, windows], arch: [arm]}\n  - group: g\n    steps:\n      - command: c\n        plugins: [{x#v1: {}}]\n"))
+	litPipe, _ := pipeline.Parse(strings.NewReader("steps:\n  - command: a\n    env: {DEPLOY: shadow, OWN: x}\n    plugins:\n      - ecr#v2.7.0: {}\n      - docker#v5.0.0: []\n      - cache#v1: ~\n  - command: b\n    matrix: {}\n  - command: d\n    matrix:\n      setup: {os: [linux, linux, windows], arch: [arm]}\n  - group: g\n    steps:\n      - command: c\n        plugins: [{x#v1: {}}]\n  - command: e\n    agents: {queue: q}\n    retry: {automatic: true}\n    soft_fail: true\n    timeout_in_minutes: 5\n    priority: 1\n"))
 	if litPipe == nil {
 		return fmt.Errorf("literal shared pipeline does not parse")
 	}
@@ -255,7 +276,13 @@ func runC19(c *ctx) error {
 	beforeMap := dumpMap(shared)
 	beforePipe := vl.Enc(dump.Pipeline(sharedPipe))
 	beforeLit := vl.Enc(dump.Pipeline(litPipe))
-	want := readers()
+	var want string
+	if pn, msg := guard(func() { want = readers() }); pn {
+		// (a second use of an object an observer has written into: yaml.v3 panics on a struct whose inline map has
+		// gained a declared key)
+		c.res.Fail(core.OracleFailure{What: "read-only use (marshal, sign, verify, compare) of the shared objects panics", Input: "literal shared pipeline / shared signed pipeline", Got: msg + " | pipeline now: " + firstDiff(vl.Enc(dump.Pipeline(litPipe)), beforeLit)})
+		return nil
+	}
 	if vl.Enc(dump.Pipeline(litPipe)) != beforeLit {
 		c.res.Fail(core.OracleFailure{What: "marshalling / signing / verifying changed the observed pipeline (empty plugin configs, empty matrix, shadowing step env)", Input: "literal shared pipeline", Got: vl.Enc(dump.Pipeline(litPipe)), Want: beforeLit})
 	}
@@ -337,6 +364,31 @@ func runC19(c *ctx) error {
 		c.res.Case("observer-frame:"+before, true)
 	}
 	c.res.Hist("observer-frame-maps")
+	// ---------- (c3) constructors copy: maps built from one slice of items (the spread form) share nothing with each
+	// other or with the slice ----------
+	for i := 0; i < 40; i++ {
+		n := 2 + rng.Intn(6)
+		items := make([]ordered.TupleSA, n)
+		for j := range items {
+			items[j] = ordered.TupleSA{Key: fmt.Sprintf("K%d", j), Value: fmt.Sprintf("v%d", j)}
+		}
+		itemsBefore := fmt.Sprint(items)
+		a := ordered.MapFromItems(items...)
+		b := ordered.MapFromItems(items...)
+		bBefore := dumpMap(b)
+		a.Set(fmt.Sprintf("K%d", rng.Intn(n)), "changed-in-a")
+		a.Delete(fmt.Sprintf("K%d", rng.Intn(n)))
+		a.Replace(fmt.Sprintf("K%d", rng.Intn(n)), "renamed-in-a", "x")
+		c.res.OracleChecks++
+		if got := dumpMap(b); got != bBefore {
+			c.res.Fail(core.OracleFailure{What: "two maps built with MapFromItems from one slice of items share storage: changing one changed the other", Input: itemsBefore, Got: got, Want: bBefore})
+		}
+		if got := fmt.Sprint(items); got != itemsBefore {
+			c.res.Fail(core.OracleFailure{What: "a map built with MapFromItems writes into the caller's slice of items", Input: itemsBefore, Got: got, Want: itemsBefore})
+		}
+		c.res.Case(fmt.Sprintf("constructor-copies:%d:%d", i, n), true)
+	}
+	c.res.Hist("constructors-copy")
 	// ---------- (c2) option plumbing: every map handed over with WithEnv stays as the caller left it, also when
 	// several env options are given to one call (Sign, Verify, SignSteps) ----------
 	{
